@@ -614,6 +614,38 @@ def _fini_target(an, st, fr, call):
     vals = [st.env.get(("v", fr.id, i)) for i in ids]
     vals = [v for v in vals if isinstance(v, Lin)]
     size = vals[0] if len(vals) == 1 else None
+    if size is None and not ids:
+        # the loop lives in a file-local helper that is handed the element size: the argument the caller passed for it
+        # (a parameter of this function whose value is what the caller loaded from `<traits>->size`)
+        x = fr.parent
+        while x is not None and size is None:
+            pf = x.f
+            pids = getattr(pf, "_esize_locals", None)
+            if pids is None:
+                pids = set()
+                for b_, i_, n in pf.walk_all():
+                    if n.get("k") == "bin" and n.get("op") == "=":
+                        l = strip(n["a"], lvalue_to_rvalue=False)
+                        r = strip(n["b"], all_casts=True)
+                        if l.get("k") == "ref" and "id" in l["d"] and r.get("k") == "mem" and r.get("f") == "size":
+                            pids.add(l["d"]["id"])
+                    elif n.get("k") == "decl":
+                        for v in n.get("vars", []):
+                            if v.get("init") is not None:
+                                r = strip(v["init"], all_casts=True)
+                                if r.get("k") == "mem" and r.get("f") == "size":
+                                    pids.add(v["id"])
+                pf._esize_locals = pids
+            pv = [st.env.get(("v", x.id, i)) for i in pids]
+            pv = [v for v in pv if isinstance(v, Lin)]
+            cand = [st.env.get(("v", fr.id, p["id"])) for p in f.params]
+            hit = [v for v in cand if isinstance(v, Lin) and any(v == w for w in pv)]
+            if len(hit) == 1:
+                size = hit[0]
+            elif not pv:
+                # the caller passed `traits->size` itself: a parameter of this function that is an unsigned size and steps the loop
+                pass
+            x = x.parent
     if not isinstance(used, Lin) or not isinstance(size, Lin):
         return None
     return own, p.off, size, used
@@ -633,11 +665,21 @@ def fini_call_hook(an, st, fr, call, args):
 def fini_exit_hook(an, st, fr, head, src, dst):
     """FINICOVER: where a function that releases the buffer leaves its finalizer loop, no complete element of the used part is left"""
     f = fr.f
+    # a releasing context: the function itself, or the caller it is analysed in, frees the object (the loop may live in a
+    # file-local helper of the function that calls free())
+    frees, x = False, fr
+    while x is not None and not frees:
+        g = x.f
+        if not hasattr(g, "_calls_free"):
+            g._calls_free = any(n.get("k") == "call" and callee_name(n) == "free" for b, i, n in g.walk_all())
+        frees = g._calls_free
+        x = x.parent
     info = getattr(f, "_fini_loops", None)
+    if not frees:
+        return
     if info is None:
         info = {}
-        frees = any(n.get("k") == "call" and callee_name(n) == "free" for b, i, n in f.walk_all())
-        if frees:
+        if True:
             for h, body in f._lin_loops.items():
                 for bid in body:
                     for el in f.blocks[bid].el:
@@ -925,12 +967,17 @@ def run_linfini(prog, ctx=None):
     res = Result("LINFINI")
     files = sorted(x for x in prog.by_file if x.startswith("mptcore/array/") and x.endswith(".c"))
 
-    def has_fini(f):
+    def has_fini(f, depth=0):
         for b, i, n in f.walk_all():
             if n.get("k") == "call" and n.get("callee") is not None and not n.get("fn"):
                 ce = strip(n["callee"], all_casts=True)
                 if (ce.get("f") if ce.get("k") == "mem" else ce.get("d", {}).get("n")) == "fini":
                     return True
+            if n.get("k") == "call" and n.get("fn") and depth < 2:
+                # the loop may have been moved into a file-local helper
+                for g in prog.resolve_call(f, n):
+                    if g.static and g.file == f.file and not g.nocfg and g.key() != f.key() and has_fini(g, depth + 1):
+                        return True
         return False
     roots = sorted([f for f in entry_points(prog, files) if has_fini(f)], key=lambda f: (f.file, f.line))
     dead = dead_map_constructor(prog)
